@@ -319,6 +319,7 @@ def _flattenElement(
 
         if not root.tagName:
             yield keepGoing(root.children)
+            slotData.pop()
             return
 
         write(b"<")
@@ -350,6 +351,9 @@ def _flattenElement(
             write(b"</" + tagName + b">")
         else:
             write(b" />")
+        # The slots filled on this tag are in scope for its own attributes and
+        # children only.
+        slotData.pop()
 
     elif isinstance(root, (tuple, list, GeneratorType)):
         for element in root:
